@@ -557,9 +557,10 @@ def check_c20(tier, seed):
             if field != 'palette_level': cfgo['palette_level'] = 6
             if field != 'intrabc_mode' and rng.random() < 0.5: cfgo['intrabc_mode'] = 1
             cases.append(mk(ck, cfgo, {'kind': 'text_cfl', 'seed': rng.randint(1, 999)}, 3, (256, 192) if pr <= 6 else (128, 128), oracles={'decode': 0, 'parse': 1, 'tools': 1, 'tool_usage': 1, 'order': 0}))
-    tiles = [(tc, tr, wh) for tc in range(0, 5) for tr in range(0, 7) for wh in [(64, 64), (256, 128), (512, 256)]]
+    # superblock counts that are and are not powers of two (5x3, 6x5, 3x2 superblocks): the limit of the tile log2 values is a *ceiling* log2 of the superblock count
+    tiles = [(tc, tr, wh) for tc in range(0, 5) for tr in range(0, 7) for wh in [(64, 64), (256, 128), (512, 256), (320, 192), (384, 320), (192, 128)]]
     rng.shuffle(tiles)
-    for (tc, tr, wh) in tiles[:30 if tier == 'quick' else 105]:
+    for (tc, tr, wh) in tiles[:44 if tier == 'quick' else 210]:
         cases.append(mk(ck, {'tile_columns': tc, 'tile_rows': tr, 'enc_mode': 8, 'logical_processors': 2}, {'kind': 'mix', 'seed': rng.randint(1, 999)}, 2, wh, oracles={'decode': 0, 'parse': 1, 'tools': 1, 'order': 0}))
     rs = run_batch(ck, cases, 'plain', 'C20', ('TERM', 'CRASH'))
     for c, r in zip(cases, rs):
